@@ -9,6 +9,7 @@ import (
 	"path/filepath"
 	"sort"
 	"strings"
+	"sync"
 
 	"golang.org/x/tools/go/callgraph"
 	"golang.org/x/tools/go/callgraph/cha"
@@ -36,6 +37,22 @@ type Program struct {
 	API                       []*ssa.Function
 	GoArch                    string
 	fnByDecl                  map[*ast.FuncDecl]*ssa.Function
+	// per-program memo of derived facts (one goroutine analyses one Program, so no locking)
+	memoRoles       *roles
+	memoNumRoles    *numRoles
+	memoLitHelpers  map[string]*ssa.Function
+	memoArithParams map[*ssa.Parameter]bool
+	memoLoopHeaders map[*ssa.Function]map[*ssa.BasicBlock]bool
+}
+
+// programs maps an SSA program back to its Program while it is being analysed.
+var programs sync.Map
+
+func programOf(sp *ssa.Program) *Program {
+	if v, ok := programs.Load(sp); ok {
+		return v.(*Program)
+	}
+	return nil
 }
 
 type LoadOpts struct {
